@@ -156,6 +156,53 @@ theorem parse_positions (e : Ext) (s : Str) (tmpl : Option Str) (spec : FormatSp
   · intro d hdd n i hni; exact cst _ _ (hcc d hdd _ hni)
   · intro d hdd n i hni; exact cst _ _ (hef d hdd _ hni)
 
+/-- Clause 1, forward direction, for ARBITRARY format strings: **a name that is not reserved is an ordinary capture at the position
+where it is written** - whatever it looks like (`desc`, `amt`, `loc`, `dates`, `description2`, `amount_usd`, `field1`, any letter
+case: the only names treated specially are the seven of `RESERVED_NAMES`).  If the parser accepts `s` and piece `i` reads the name
+`n ∉ RESERVED_NAMES`, then: without a `description` piece the string is in Mode 2 and `(n, i)` is one of its template captures (no
+description column, no extra fields); with a `description` piece `(n, i)` is one of the extra fields (no template captures); and in
+both cases column `i` is none of the date / amount / description / location columns. -/
+theorem nonreserved_name_is_captured_at_its_position (e : Ext) (s : Str) (tmpl : Option Str) (spec : FormatSpec)
+    (h : Impl.parseFormat e s tmpl = .ok spec) (i : Nat) (n : Str)
+    (hn : NamedAt e (splitComma s) i n) (hres : n ∉ FmtTables.RESERVED_NAMES) :
+    ((∀ p ∈ splitComma s, tokName e p ≠ some sDescription) →
+        spec.descriptionColumn = none ∧ spec.extraFields = none ∧ ∃ d, spec.customCaptures = some d ∧ (n, i) ∈ d) ∧
+    ((∃ p ∈ splitComma s, tokName e p = some sDescription) →
+        spec.customCaptures = none ∧ ∃ d, spec.extraFields = some d ∧ (n, i) ∈ d) ∧
+    spec.dateColumn ≠ i ∧ spec.amountColumn ≠ i ∧ spec.descriptionColumn ≠ some i ∧ spec.locationColumn ≠ some i := by
+  obtain ⟨st, hl, hf⟩ := parse_ok_elim h
+  have hmem : (n, i) ∈ st.customs := by simpa using loop_records_at _ hl i n hn hres
+  have hfc := finish_customs hf
+  have hpos := parse_positions e s tmpl spec h
+  -- piece `i` reads exactly one name
+  have huniq : ∀ k, NamedAt e (splitComma s) i k → k = n := by
+    rintro k ⟨p, hp, hk⟩
+    obtain ⟨q, hq, hqn⟩ := hn
+    rw [hp] at hq; cases hq
+    rw [hk] at hqn; exact Option.some.inj hqn
+  refine ⟨?_, ?_, ?_, ?_, ?_, ?_⟩
+  · intro hnd
+    have hD : sDescription ∉ keys st.fields := by
+      intro hd
+      rcases (loop_origin _ hl).1 sDescription hd with h0 | ⟨p, hp, hpn⟩
+      · simp [St.init, keys] at h0
+      · exact hnd p hp hpn
+    obtain ⟨h1, h2, h3⟩ := hfc.2 hD
+    exact ⟨h1, h2, st.customs, h3, hmem⟩
+  · rintro ⟨p, hp, hpn⟩
+    have hD : sDescription ∈ keys st.fields :=
+      (loop_records _ hl p hp sDescription hpn (by rintro (h | h) <;> revert h <;> decide)).1 (by decide)
+    obtain ⟨h1, h2⟩ := hfc.1 hD
+    exact ⟨h1, st.customs, h2 (List.ne_nil_of_mem hmem), hmem⟩
+  · intro hc; rw [hc] at hpos
+    exact hres (huniq _ hpos.1 ▸ (by decide : sDate ∈ FmtTables.RESERVED_NAMES))
+  · intro hc; rw [hc] at hpos
+    exact hres (huniq _ hpos.2.1 ▸ (by decide : sAmount ∈ FmtTables.RESERVED_NAMES))
+  · intro hc
+    exact hres (huniq _ (hpos.2.2.1 i hc) ▸ (by decide : sDescription ∈ FmtTables.RESERVED_NAMES))
+  · intro hc
+    exact hres (huniq _ (hpos.2.2.2.1 i hc) ▸ (by decide : sLocation ∈ FmtTables.RESERVED_NAMES))
+
 
 /-! ### clause 3: inspect's suggestion round-trips -/
 
@@ -195,6 +242,101 @@ theorem detect_columns_distinct (e : Ext) (headers : List Str) (sp : Impl.Detect
     sp.descriptionColumn ≠ sp.amountColumn := by
   obtain ⟨hd, _⟩ := detect_distinct e headers sp h
   exact ⟨hd.1, hd.2.1, hd.2.2.1⟩
+
+/-- … and the optional location column is none of them: NO column is reported for two roles. -/
+theorem detect_location_distinct (e : Ext) (headers : List Str) (sp : Impl.DetectSpec)
+    (h : Impl.detect e headers = .ok sp) (l : Nat) (hl : sp.locationColumn = some l) :
+    l ≠ sp.dateColumn ∧ l ≠ sp.descriptionColumn ∧ l ≠ sp.amountColumn :=
+  (detect_distinct e headers sp h).1.2.2.2 l hl
+
+/-- **Each header fills at most one role** (any header text - also one that carries keywords of two or three roles, like
+`Payment Date` or `Merchant Name Date` - any state): one pass of the detection loop leaves the state unchanged or fills exactly ONE
+slot, which was empty, with this header's index. -/
+theorem detect_header_fills_at_most_one_role (e : Ext) (idx : Nat) (d : Impl.Detected) (hdr : Str) :
+    Impl.detectStep e idx d hdr = d ∨
+    (d.date = none ∧ Impl.detectStep e idx d hdr = { d with date := some idx }) ∨
+    (d.desc = none ∧ Impl.detectStep e idx d hdr = { d with desc := some idx }) ∨
+    (d.amount = none ∧ Impl.detectStep e idx d hdr = { d with amount := some idx }) ∨
+    (d.location = none ∧ Impl.detectStep e idx d hdr = { d with location := some idx }) := by
+  unfold Impl.detectStep
+  simp only [Bool.and_eq_true, Option.isNone_iff_eq_none]
+  split
+  · rename_i hc; exact Or.inr (Or.inl ⟨hc.1, rfl⟩)
+  · split
+    · rename_i hc; exact Or.inr (Or.inr (Or.inl ⟨hc.1, rfl⟩))
+    · split
+      · rename_i hc; exact Or.inr (Or.inr (Or.inr (Or.inl ⟨hc.1, rfl⟩)))
+      · split
+        · rename_i hc; exact Or.inr (Or.inr (Or.inr (Or.inr ⟨hc.1, rfl⟩)))
+        · exact Or.inl rfl
+
+/-- **Detection is a first fit, role by role** (the oracle `first_fit` of the check, proved for every header row): when detection
+succeeds, the date column is the FIRST header carrying a date keyword; the description column is the first header carrying a
+description keyword other than the date column; the amount column the first header carrying an amount keyword other than those two;
+the location column (when reported) the first header carrying a location keyword other than those three, and when none is
+reported every header carrying a location keyword serves one of the three required roles.  Which role a header serves never depends
+on the headers to its right. -/
+theorem detect_first_fit (e : Ext) (headers : List Str) (sp : Impl.DetectSpec) (h : Impl.detect e headers = .ok sp) :
+    (HeaderMatches e headers FmtTables.DATE_PATTERNS sp.dateColumn ∧
+      ∀ j, j < sp.dateColumn → ¬ HeaderMatches e headers FmtTables.DATE_PATTERNS j) ∧
+    (HeaderMatches e headers FmtTables.DESC_PATTERNS sp.descriptionColumn ∧
+      ∀ j, j < sp.descriptionColumn → HeaderMatches e headers FmtTables.DESC_PATTERNS j → j = sp.dateColumn) ∧
+    (HeaderMatches e headers FmtTables.AMOUNT_PATTERNS sp.amountColumn ∧
+      ∀ j, j < sp.amountColumn → HeaderMatches e headers FmtTables.AMOUNT_PATTERNS j →
+        j = sp.dateColumn ∨ j = sp.descriptionColumn) ∧
+    (∀ l, sp.locationColumn = some l → HeaderMatches e headers FmtTables.LOCATION_PATTERNS l ∧
+      ∀ j, j < l → HeaderMatches e headers FmtTables.LOCATION_PATTERNS j →
+        j = sp.dateColumn ∨ j = sp.descriptionColumn ∨ j = sp.amountColumn) ∧
+    (sp.locationColumn = none → ∀ j, HeaderMatches e headers FmtTables.LOCATION_PATTERNS j →
+        j = sp.dateColumn ∨ j = sp.descriptionColumn ∨ j = sp.amountColumn) := by
+  have hff := firstFit_detectLoop e headers
+  unfold Impl.detect at h
+  split at h
+  · cases h
+  · split at h
+    · rename_i d s a l heq
+      cases h
+      rw [heq] at hff
+      obtain ⟨h1, _, h3, _, h5, _, h7, h8⟩ := hff
+      simp only [] at h1 h3 h5 h7 h8
+      have sj : ∀ {a b : Nat}, some a = some b → b = a := fun h => (Option.some.inj h).symm
+      refine ⟨⟨(h1 d rfl).1, (h1 d rfl).2⟩, ⟨(h3 s rfl).1, fun j hj hm => sj ((h3 s rfl).2.2 j hj hm)⟩,
+        ⟨(h5 a rfl).1, fun j hj hm => ((h5 a rfl).2.2.2 j hj hm).imp sj sj⟩, ?_, ?_⟩
+      · intro x hx
+        exact ⟨(h7 x hx).1, fun j hj hm => ((h7 x hx).2.2.2.2 j hj hm).imp sj (Or.imp sj sj)⟩
+      · intro hx j hm
+        exact (h8 hx j hm).imp sj (Or.imp sj sj)
+    · cases h
+
+/-- **Detection fails only when a required role has no header of its own**: if a non-empty header row is not detected, then no header
+carries a date keyword, or every header carrying a description keyword is the one taken as date column, or every header carrying an
+amount keyword is the one taken as date or description column (`d` is the loop's final state).  It is reported as an error value -
+the `ValueError` of the code - never anything else. -/
+theorem detect_fails_only_when_a_required_role_is_unserved (e : Ext) (headers : List Str) (hne : headers ≠ []) :
+    (∃ sp, Impl.detect e headers = .ok sp) ∨
+    (Impl.detect e headers = .error .missing ∧
+      let d := Impl.detectLoop e 0 ⟨none, none, none, none⟩ headers
+      ((∀ j, ¬ HeaderMatches e headers FmtTables.DATE_PATTERNS j) ∨
+       (∀ j, HeaderMatches e headers FmtTables.DESC_PATTERNS j → d.date = some j) ∨
+       (∀ j, HeaderMatches e headers FmtTables.AMOUNT_PATTERNS j → d.date = some j ∨ d.desc = some j))) := by
+  have hff := firstFit_detectLoop e headers
+  have hemp : headers.isEmpty = false := by cases headers <;> simp_all
+  unfold Impl.detect
+  rw [hemp]
+  simp only [Bool.false_eq_true, if_false]
+  generalize Impl.detectLoop e 0 ⟨none, none, none, none⟩ headers = d at hff ⊢
+  obtain ⟨dd, ds, da, dl⟩ := d
+  obtain ⟨_, h2, _, h4, _, h6, _, _⟩ := hff
+  simp only [] at h2 h4 h6
+  cases dd with
+  | none => exact Or.inr ⟨rfl, Or.inl (h2 rfl)⟩
+  | some x =>
+    cases ds with
+    | none => exact Or.inr ⟨rfl, Or.inr (Or.inl (h4 rfl))⟩
+    | some y =>
+      cases da with
+      | none => exact Or.inr ⟨rfl, Or.inr (Or.inr (h6 rfl))⟩
+      | some z => exact Or.inl ⟨_, rfl⟩
 
 /-! ### what inspect may put into its suggestion: a date format with a comma can never round-trip
 
@@ -433,5 +575,39 @@ def sampleHeaders : List Str :=
 example : Impl.detect asciiExt sampleHeaders = .ok ⟨0, FmtTables.DETECT_DATE_FORMAT, 2, 4, some 3⟩ := by decide +kernel
 example : String.ofList (Impl.suggest ⟨0, FmtTables.DETECT_DATE_FORMAT, 2, 4, some 3⟩)
     = "{date:%m/%d/%Y}, {_}, {description}, {location}, {amount}" := by decide +kernel
+
+/-- near misses of the reserved words are NOT reserved (the hypothesis of `nonreserved_name_is_captured_at_its_position`) … -/
+example : ∀ n ∈ ["desc", "amt", "loc", "dt", "dates", "descriptions", "description2", "amount_usd", "locations", "field1", "fields",
+    "__", "_1"].map String.toList, n ∉ FmtTables.RESERVED_NAMES := by decide +kernel
+/-- … and are captures at their written positions: Mode 2 (template captures) and Mode 1 (extra fields next to the real columns) -/
+example : Impl.parseFormat asciiExt "{date:%Y-%m-%d}, {type}, {Desc}, {amount}, {LOC}".toList (some "{desc} ({type})".toList) =
+    .ok { dateColumn := 0, dateFormat := "%Y-%m-%d".toList, amountColumn := 3, descriptionColumn := none,
+          customCaptures := some [("type".toList, 1), ("desc".toList, 2), ("loc".toList, 4)],
+          descriptionTemplate := some "{desc} ({type})".toList, extraFields := none, locationColumn := none,
+          negateAmount := false, absAmount := false } := by decide +kernel
+example : Impl.parseFormat asciiExt "{date}, {description}, {amt}, {amount}, {loc}, {location}, {dates}".toList none =
+    .ok { dateColumn := 0, dateFormat := FmtTables.DEFAULT_DATE_FORMAT, amountColumn := 3, descriptionColumn := some 1,
+          customCaptures := none, descriptionTemplate := none,
+          extraFields := some [("amt".toList, 2), ("loc".toList, 4), ("dates".toList, 6)], locationColumn := some 5,
+          negateAmount := false, absAmount := false } := by decide +kernel
+example : NamedAt asciiExt (splitComma "{date}, {description}, {amt}, {amount}".toList) 2 "amt".toList :=
+  ⟨_, rfl, by decide +kernel⟩
+
+/-- headers whose wording mentions two kinds of column: one role each, the first still open (`detect_first_fit`,
+`detect_header_fills_at_most_one_role`); the suggestion keeps all three required tokens -/
+def twoRoleHeaders : List Str := ["Payment Date", "Description", "Amount"].map String.toList
+example : HeaderMatches asciiExt twoRoleHeaders FmtTables.DATE_PATTERNS 0 ∧
+    HeaderMatches asciiExt twoRoleHeaders FmtTables.AMOUNT_PATTERNS 0 :=
+  ⟨⟨_, rfl, by decide +kernel⟩, ⟨_, rfl, by decide +kernel⟩⟩
+example : Impl.detect asciiExt twoRoleHeaders = .ok ⟨0, FmtTables.DETECT_DATE_FORMAT, 1, 2, none⟩ := by decide +kernel
+example : String.ofList (Impl.suggest ⟨0, FmtTables.DETECT_DATE_FORMAT, 1, 2, none⟩)
+    = "{date:%m/%d/%Y}, {description}, {amount}" := by decide +kernel
+example : Impl.detect asciiExt (["Amount", "Merchant Charge Date", "Debit Memo", "City Name"].map String.toList)
+    = .ok ⟨1, FmtTables.DETECT_DATE_FORMAT, 2, 0, some 3⟩ := by decide +kernel
+/-- already filled roles: `Charge Date` after `Date` and `Amount` serves nothing; `Payee Date` after `Date` is the description -/
+example : Impl.detect asciiExt (["Date", "Amount", "Charge Date", "Payee Date"].map String.toList)
+    = .ok ⟨0, FmtTables.DETECT_DATE_FORMAT, 3, 1, none⟩ := by decide +kernel
+/-- a required role without a header of its own: reported as the error value, `Payment Date` is not also the amount -/
+example : Impl.detect asciiExt (["Payment Date", "Description"].map String.toList) = .error .missing := by decide +kernel
 
 end TallyVerif.Props.C18
